@@ -157,9 +157,10 @@ func (f *fsm) run() {
 		}
 
 		if t.to != toBefore && t.to == disabledState && f.conn != nil &&
-			t.from > activeState {
+			(t.from > activeState || toBefore == openSentState) {
 			// we were disabled while transitioning to a target state with an
-			// active connection
+			// active connection. A transition to openSent means our OPEN is
+			// already on the wire.
 			f.sendNotification(newNotification(NOTIF_CODE_CEASE, 0, nil)) // nolint: errcheck
 		}
 
